@@ -74,6 +74,18 @@ CHECKS = {
             "Exploration: ~270k calls per build in the quick tier - every truncation, exhaustive bit flips of encodings <= 200 bytes, extensions, fills, hostile outer and inner (under the keystream) length prefixes, hostile JSON at every leaf, the zero test exhaustively over the 256 byte values, every decoder-returned value through the in-scope consumers, slice lengths 0..2, timestamp x timeout grid. One defect = one signature (panic location).",
             "Only the functions the property names are consumers (decode, verify, decrypt, share combination, accessors); sign/encrypt with decoded keys are out of scope. A hang is detected by the parent watchdog (inconclusive, not a violation, unless the call log shows a call that never returned).",
             "DESIGN.md 6 C17"),
+    "C18": ("runtime monitor: golden corpus produced by the pinned release (with ground truth) replayed on the current tree + live two-way interop with an independent implementation of every own-protocol construction and byte-level wire layouts",
+            "Exploration with an exhaustively replayed finite corpus: 122 artefacts (every data type x group x scheme, three encodings each) generated by commit 4bdca94 must decode, re-encode to the recorded bytes and verify/decrypt/recombine to their recorded ground truth; fresh reference-sealed signcryption and time-lock ciphertexts, reference-built proofs of knowledge (interactive and timestamp) and ElGamal proofs must be accepted by the library, and reference-written serde_bare layouts must equal the library's. A salt/tag/label/framing/field-order change made consistently on both sides of the library is therefore visible.",
+            "The corpus was generated by harness code linked against the pinned commit in a scratch worktree (header records commit and generator). Two kinds of pinned output were self-inconsistent at generation and are flagged in the corpus (SecretKeyEnum raw bytes, MessageAugmentation time-lock ciphertexts). Trusted: sha2/sha3/merlin shared with the library.",
+            "DESIGN.md 6 C18"),
+    "C19": ("offline log checker over two builds (blst backend, pure-Rust backend): transcript equality of deterministic operations line by line + cross-consumption of randomized artefacts judged against ground truth",
+            "Exploration: both builds emit the same seeded transcript (key derivation, public keys, signatures x3, PoPs, accumulations, challenges, compute_y, hash-to-scalar/point, generators, fixed-blinder ElGamal, signcryption hash, pairing-value bytes, tag constants, encodings) which must be identical; artefact sets produced by several processes of each build are decoded, re-encoded and judged by the other build.",
+            "The rust-backend build shares bls12_381_plus with the reference oracle; C19 does not rely on the oracle for transcript equality. Inputs sampled from the seed.",
+            "DESIGN.md 6 C19"),
+    "C20": ("multi-process, multi-thread event log of the public images of all ephemeral values + offline global-distinctness checker with pooled observables",
+            "Exploration: 16 processes x 4 threads call every randomized entry point with identical arguments (1024 calls per entry point and group in the quick tier, 4096 in the thorough tier); ephemeral scalars, key-group points, signature-group points and masks are pooled per group across entry points and must be globally distinct (within a call, across calls, threads and processes). Polynomial coefficients of split are recovered from the shares; the ElGamal proof nonce is recovered as r1 = P*blinder_proof - c1*challenge.",
+            "A generator that is weak but never repeats is observationally indistinguishable and not claimed.",
+            "DESIGN.md 6 C20"),
 }
 
 NOT_YET = {}
